@@ -15,6 +15,9 @@ CHECKS["C06"] = dict(engine="symx", technique="symbolic execution (symx/z3) of t
 CHECKS["C17"] = dict(engine="symx", technique="symbolic execution (symx/z3) of the real HttpxTransport._prepare_headers/request and the bundled auth plugins against a reference fold; plugin sequences, header names, locations and argument presence are solver-decided choices, values symbolic strings",
    text="Every sequence of <=2 (quick) / <=3 (thorough) bundled auth plugins of every kind, header names from a pool with case variants, API-key location header/query/cookie, presence/None-ness of caller params, cookies and json, defaults vs per-request headers vs transport bearer token: the kwargs reaching httpx.AsyncClient.request equal the statement's fold for all symbolic values.",
    note="httpx below AsyncClient.request (its own case-insensitive header merge) is outside the claim; values are length-1 symbolic strings (pure pass-through data); the oracle is props/c17.py:expected().", ref="§2 C17")
+CHECKS["C18"] = dict(engine="symx", technique="symbolic execution (symx/z3) of the real SSE/NDJSON helpers over httpx's real LineDecoder: stream characters symbolic, split points solver-decided; metamorphic oracle (chunked == unsplit) plus a weak reference on canonical streams",
+   text="For every text up to 4 (quick) / 5-6 (thorough) symbolic characters over the alphabet 'dat: LF CR x é U+2028 { 1' and every subset of split points, and for SSE templates with concrete field names and symbolic payload/separator characters with <=1/<=2 split points anywhere, z3 decides that iter_sse, iter_sse_events_text and iter_ndjson yield exactly the items of the unsplit stream; a weak reference decides the positive half on canonical LF-terminated streams.",
+   note="Byte-level splitting inside a multi-byte character is decided by codecs' incremental decoder inside httpx (C code) and is outside the claim; json.loads is an identity stub; the stub response reproduces httpx.Response.aiter_lines' loop over the instrumented httpx LineDecoder.", ref="§2 C18")
 NA = {}
 def main():
     checks = []
